@@ -94,6 +94,23 @@ func init() {
 					H = append(H, engine.Op{Kind: "free", P: hr.Intn(1 << 16)})
 				}
 				H = append(H, engine.Op{Kind: "commit"})
+				if hr.Intn(2) == 0 {
+					// overwrites push more meta pages (overwrite pages) past the limit; a later transaction frees
+					// data pages and checkpoints: its commit releases pages of the overflow area again
+					H = append(H, engine.Op{Kind: "begin", Overflow: true, WALLimit: 1000})
+					for k := 2 + hr.Intn(8); k > 0; k-- {
+						H = append(H, engine.Op{Kind: "setfull", P: hr.Intn(1 << 16), Seed: 1 + hr.Intn(1000)})
+					}
+					H = append(H, engine.Op{Kind: "commit"}, engine.Op{Kind: "begin", Overflow: true})
+					for k := 4 + hr.Intn(10); k > 0; k-- {
+						H = append(H, engine.Op{Kind: "free", P: hr.Intn(1 << 16)})
+					}
+					H = append(H, engine.Op{Kind: "checkpoint"}, engine.Op{Kind: "commit"})
+					if hr.Intn(2) == 0 {
+						H = append(H, engine.Op{Kind: "begin", Overflow: true}, engine.Op{Kind: "checkpoint"}, engine.Op{Kind: "commit"})
+					}
+					rep.count("scenario:overflow-area-released-before-reopen", 1)
+				}
 				rep.count("scenario:full-bounded-file-with-overflow-area", 1)
 			default:
 				H = gen.History(hr, prof)
